@@ -469,3 +469,21 @@ def r9(rr, repo):
     c10r1(rr, repo)
     c10r2(rr, repo)
     c10r3(rr, repo)
+
+
+@rule('C09.R10', "every topic of a frame set is encoded and decoded on its own: inside the per-topic loops of MQ.frames2topicmsgs and MQ.topicmsgs2frames nothing a topic's iteration binds is read by a later "
+                 "iteration before that iteration has bound it itself (no setting, choice or buffer carried from one topic to the next); the per-call setting is never rebound in the loop")
+def r10(rr, repo):
+    mod = repo.module(MQF)
+    for name in ('MQ.frames2topicmsgs', 'MQ.topicmsgs2frames'):
+        _, fn = repo.find(f'{MQF}::{name}')
+        loops = [n for n in walk_scope(fn) if isinstance(n, ast.For) and U(n.iter).endswith('.items()') and U(n.iter).split('.')[0] in q.func_params(fn)]
+        rr.floor(f'per-topic loops of {name}', len(loops), 1, mod, fn)
+        params = set(q.func_params(fn))
+        for lp in loops:
+            carried = q.loop_carried(lp)
+            rr.ob(f'{name}: no value is carried from one topic to the next', not carried, mod, carried[0][1] if carried else lp,
+                  witness=', '.join(sorted({f"{n} (read at line {nd.lineno} before this iteration binds it)" for n, nd in carried}))[:300] or 'every name the loop binds is bound before it is read in each iteration',
+                  key=f'topic-independent|{name}')
+            rebound = sorted({n.id for n in ast.walk(lp) if isinstance(n, ast.Name) and isinstance(n.ctx, ast.Store) and n.id in params and n.id != U(lp.iter).split('.')[0]})
+            rr.ob(f'{name}: the per-call arguments are not rebound inside the per-topic loop', not rebound, mod, lp, witness=', '.join(rebound) or 'none rebound', key=f'params-not-rebound|{name}')
